@@ -172,7 +172,13 @@ def census_diff():
 # what a run has to contain to count as the run the evidence describes: ABSOLUTE floors (scaled down
 # only for runs below 100 000 lines); fixed lists: K 124/100 = 1.24x, V 276/100 = 2.76x, S 1402 fixed (1.40x) + about 170 seeded compressed variants (1.55-1.58x); the seeded kinds at least 7x (see docs/C08.md)
 KIND_FLOORS = {"K": 100, "W": 800, "T": 5000, "U": 8000, "M": 20000, "C": 2000, "R": 5000, "P": 2000, "S": 1000,
-               "Q": 2000, "F": 2000, "V": 100}
+               "Q": 2000, "F": 2000, "V": 100, "Z": 450, "G": 200}
+# kind Z (wave-4 follow-up; fixed list): the family must reach the ratios at which the claimed-size guards of
+# frame::decompress matter: real Snappy above 21:1 (its maximum is 21.33), real LZ4 above 200:1
+Z_SNAPPY_MAX_RATIO_X100 = 2100
+Z_LZ4_MAX_RATIO_X100 = 20000
+Z_SNAPPY_ABOVE_21 = 100
+Z_LARGEST_BODY = 4 << 20
 NOTRUN_CAP = 20
 
 
@@ -184,8 +190,20 @@ def post(lines, verdicts):
         return out
     kinds, ok_frames, typed_ok, typed_err, tablets_ok, small_ok, tuple_ok, tuple_err = {}, 0, 0, 0, 0, 0, 0, 0
     q2_ok = q2_err = p_ok = p_err = comp_other = hwm_seen = 0
+    z_s_max = z_l_max = z_s_above = z_big = 0
     for ln in lines:
         k = ln.split(" ", 1)[0]
+        if k == "Z":
+            zm = re.search(r" bl=(\d+) cl=\d+ r=(\d+)", ln)
+            if zm:
+                snappy = ln.split(" ", 3)[2][-1:] == "s"
+                r100 = int(zm.group(2))
+                z_big = max(z_big, int(zm.group(1)))
+                if snappy:
+                    z_s_max = max(z_s_max, r100)
+                    z_s_above += r100 > 2100
+                else:
+                    z_l_max = max(z_l_max, r100)
         kinds[k] = kinds.get(k, 0) + 1
         impl = ln.split("|", 1)[1] if "|" in ln else ""
         ok_frames += " ok F(" in impl or " ok Rows(" in impl
@@ -204,10 +222,14 @@ def post(lines, verdicts):
         small_ok += " s=ok" in impl
     scale = min(1.0, len(lines) / 100000.0)
     for k, floor in KIND_FLOORS.items():
-        need = floor if k in ("K", "S", "V") else int(floor * scale)
+        need = floor if k in ("K", "S", "V", "Z", "G") else int(floor * scale)
         if kinds.get(k, 0) < need:
             out.append(("diff", f"coverage kind {k}", f"diff coverage-floor kind {k}: {kinds.get(k, 0)} cases < {need}"))
-    for name, got, need in (("frames decoded successfully", ok_frames, int(10000 * scale)),
+    for name, got, need in (("Z: max achieved Snappy ratio x100", z_s_max, Z_SNAPPY_MAX_RATIO_X100),
+                            ("Z: max achieved LZ4 ratio x100", z_l_max, Z_LZ4_MAX_RATIO_X100),
+                            ("Z: Snappy cases with ratio above 21", z_s_above, Z_SNAPPY_ABOVE_21),
+                            ("Z: largest uncompressed frame", z_big, Z_LARGEST_BODY),
+                            ("frames decoded successfully", ok_frames, int(10000 * scale)),
                             ("typed rows ok", typed_ok, int(500 * scale)), ("typed rows failing", typed_err, int(300 * scale)),
                             ("tablet payloads accepted", tablets_ok, int(200 * scale)),
                             ("second frame read ok", q2_ok, int(1000 * scale)), ("second frame read refused", q2_err, int(500 * scale)),
@@ -229,6 +251,8 @@ def extra_coverage(lines, verdicts):
     outcomes = {}
     maxreq = 0
     max_hwm = 0
+    zr = {"Z_snappy_max_ratio_x100": 0, "Z_lz4_max_ratio_x100": 0, "Z_snappy_cases_ratio_above_21": 0, "Z_largest_uncompressed_frame": 0,
+          "G_guard_refused": 0, "G_guard_passed": 0, "guard_compared_cases": 0}
     sub = {"compressed_M_U_F_S_V": 0, "q2_ok": 0, "q2_err": 0, "P_accepted": 0, "P_refused": 0, "typed_rows_ok": 0, "typed_rows_failing": 0,
            "tablets_accepted": 0, "frames_accepted": 0}
     tuples = {}
@@ -237,6 +261,19 @@ def extra_coverage(lines, verdicts):
         kinds[k0] = kinds.get(k0, 0) + 1
         raw = ln.split("|", 1)[1] if "|" in ln else ""
         f3 = ln.split(" ", 3)
+        zr["guard_compared_cases"] += " g=" in raw
+        if k0 == "G":
+            zr["G_guard_refused"] += " g=1" in raw
+            zr["G_guard_passed"] += " g=0" in raw
+        zm = re.search(r" bl=(\d+) cl=\d+ r=(\d+)", raw) if k0 == "Z" else None
+        if zm:
+            r100 = int(zm.group(2))
+            zr["Z_largest_uncompressed_frame"] = max(zr["Z_largest_uncompressed_frame"], int(zm.group(1)))
+            if f3[2][-1:] == "s":
+                zr["Z_snappy_max_ratio_x100"] = max(zr["Z_snappy_max_ratio_x100"], r100)
+                zr["Z_snappy_cases_ratio_above_21"] += r100 > 2100
+            else:
+                zr["Z_lz4_max_ratio_x100"] = max(zr["Z_lz4_max_ratio_x100"], r100)
         sub["compressed_M_U_F_S_V"] += k0 in ("M", "U", "F", "S", "V") and len(f3) > 2 and f3[2][-1:] in ("l", "s")
         mh = re.search(r" h=(\d+)", raw)
         if mh:
@@ -254,7 +291,7 @@ def extra_coverage(lines, verdicts):
             key = m.group(1) + "_" + ("ok" if m.group(2) == "ok" else "failing")
             tuples[key] = tuples.get(key, 0) + 1
         impl = ln.split("|", 1)[1].split() if "|" in ln else []
-        impl = [x for x in impl if not x.startswith("dc=")]
+        impl = [x for x in impl if not x.startswith(("dc=", "g=", "zeq=", "bh=", "bl=", "cl=", "r=", "cf="))]
         key = " ".join(impl[:3]) if impl and impl[0] == "err" else (impl[0] if impl else "?")
         outcomes[key] = outcomes.get(key, 0) + 1
         for x in impl:
@@ -270,6 +307,7 @@ def extra_coverage(lines, verdicts):
     return {
         "cases_per_kind": dict(sorted(kinds.items())),
         "sub_counts": sub,
+        "compressible_family_Z_G": zr,
         "tuple_targets": dict(sorted(tuples.items())),
         "not_run_env": notrun,
         "runner_env": {"VERIF_C08_DRIVER": os.environ.get("VERIF_C08_DRIVER"),
